@@ -91,6 +91,28 @@ func genC15(seed uint64, tier string) C15Cfg {
 			c.Ops = append(c.Ops, C15Op{Kind: "idle", IdleMs: idle + r.Intn(700)})
 		}
 	}
+	// a fifth of the histories contain a flood: a sender exceeds the per-topic limit on a topic that never starts and
+	// keeps sending to it at intervals shorter than the expiry, while other topics come and go (the collector gets
+	// its chances); in the end the topic is started: nothing of the flood may still be there
+	if rf := prng.Derive(seed, "flood"); rf.Bool(0.2) {
+		t := nextTopic
+		nextTopic++
+		snd := uint16(1 + rf.Intn(3))
+		var fl []C15Op
+		fl = append(fl, C15Op{Kind: "recv", Sender: snd, Topic: t, Burst: rf.Range(103, 110)})
+		step := c.SweepMs + rf.Intn(max(1, c.ExpireMs*8/10-c.SweepMs))
+		total := 0
+		for total < 2*c.ExpireMs+6*c.SweepMs+2*step {
+			fl = append(fl, C15Op{Kind: "idle", IdleMs: step})
+			total += step
+			fl = append(fl, C15Op{Kind: "recv", Sender: snd, Topic: t, Burst: rf.Range(1, 2)})
+			fl = append(fl, C15Op{Kind: "send", Topic: nextTopic})
+			nextTopic++
+		}
+		fl = append(fl, C15Op{Kind: "send", Topic: t})
+		at := rf.Intn(len(c.Ops) + 1)
+		c.Ops = append(c.Ops[:at:at], append(fl, c.Ops[at:]...)...)
+	}
 	// finally start everything that is still open, after a few sends that give the GC its chance
 	for _, t := range open {
 		c.Ops = append(c.Ops, C15Op{Kind: "send", Topic: t})
@@ -107,9 +129,21 @@ type c15Msg struct {
 	sender  uint16
 	at      time.Duration
 	verdict string // must | mustnot | either (w.r.t. the limits at arrival)
+	era     int
+}
+
+// c15Era is a stretch of a topic's history in which its buffered data was surely never collected in between.
+// hi is the latest arrival that can have extended the life of the era's data: an arrival of a sender that surely has
+// more than the per-topic limit stored in the era cannot - either the era's buffer still exists, then the arrival
+// is shed, or it has been collected, then there is nothing left to extend.
+type c15Era struct {
+	hi     time.Duration
+	stored map[uint16]int // messages per sender that were surely stored at arrival
+	after  map[uint16]int // arrivals per sender since its surely stored messages reached the limit
 }
 
 type c15Topic struct {
+	eras       []*c15Era
 	msgs       []*c15Msg
 	lastUsed   time.Duration // arrival of the last message that was surely stored (lower bound of the buffer's own notion)
 	lastUsedHi time.Duration // arrival of the last message of any kind (upper bound)
@@ -179,22 +213,31 @@ func runC15(t *testing.T, spec RunSpec) *RunResult {
 			}
 			return tp.lastUsed
 		}
-		sureExpired := func(tp *c15Topic, x time.Duration) bool {
+		expiredSince := func(base, x time.Duration) bool {
 			// "eventually discarded": expired for good once the GC had its chances - three sends in distinct sweep
 			// periods, all later than two expiry periods + 2 sweeps (the collector may run as rarely as once per expiry period)
 			grace := 2*expire + 2*sweep
-			if x-hi(tp) <= grace {
+			if x-base <= grace {
 				return false
 			}
 			chances := 0
 			var last time.Duration = -1
 			for _, st := range sendTimes {
-				if st-hi(tp) > grace && st < x && (last < 0 || st-last >= sweep) {
+				if st-base > grace && st < x && (last < 0 || st-last >= sweep) {
 					chances++
 					last = st
 				}
 			}
 			return chances >= 3
+		}
+		sureExpired := func(tp *c15Topic, x time.Duration) bool { return expiredSince(hi(tp), x) }
+		// the same for one buffered message: shed traffic of a sender that is surely beyond the per-topic limit does
+		// not keep the data alive (see c15Era)
+		msgExpired := func(tp *c15Topic, m *c15Msg, x time.Duration) bool {
+			if m.era < len(tp.eras) {
+				return expiredSince(tp.eras[m.era].hi, x)
+			}
+			return sureExpired(tp, x)
 		}
 		inFlight := func(s uint16, x time.Duration, sure bool) int {
 			n := 0
@@ -255,6 +298,7 @@ func runC15(t *testing.T, spec RunSpec) *RunResult {
 							// it was buffered again: the topic's start has been forgotten; treat it as a fresh, unstarted topic
 							tp.started = false
 							tp.msgs = nil
+							tp.eras = nil
 							m.verdict = "either"
 							tp.msgs = append(tp.msgs, m)
 							tp.lastUsed = now()
@@ -273,7 +317,23 @@ func runC15(t *testing.T, spec RunSpec) *RunResult {
 						}
 					}
 					alreadyIn := perSender > 0
-					fresh := sureAlive(tp, now())              // older data of this topic has surely not been collected
+					fresh := sureAlive(tp, now()) // older data of this topic has surely not been collected
+					if len(tp.eras) == 0 || (!fresh && len(tp.msgs) > 0) {
+						tp.eras = append(tp.eras, &c15Era{stored: map[uint16]int{}, after: map[uint16]int{}})
+					}
+					m.era = len(tp.eras) - 1
+					for _, e := range tp.eras {
+						// the limit holds give or take one: with the limit surely stored and two more arrivals gone by, every
+						// further arrival of this sender is shed for sure as long as the era's buffer exists
+						if e.stored[op.Sender] >= c15PerSender && e.after[op.Sender] >= 2 {
+							res.Probes["surely-shed-arrival"]++
+						} else {
+							e.hi = now()
+						}
+						if e.stored[op.Sender] >= c15PerSender {
+							e.after[op.Sender]++
+						}
+					}
 					upper := inFlight(op.Sender, now(), false) // topics possibly counted against the sender (this one included if it holds data)
 					lower := inFlight(op.Sender, now(), true)  // topics surely counted
 					switch {
@@ -306,6 +366,7 @@ func runC15(t *testing.T, spec RunSpec) *RunResult {
 					tp.msgs = append(tp.msgs, m)
 					if m.verdict == "must" {
 						tp.lastUsed = now()
+						tp.eras[m.era].stored[op.Sender]++
 					}
 					tp.lastUsedHi = now()
 				}
@@ -331,7 +392,7 @@ func runC15(t *testing.T, spec RunSpec) *RunResult {
 						switch {
 						case n > 1:
 							viol("duplicate", fmt.Sprintf("message %s was handed over %d times", m.id, n))
-						case expired && n > 0:
+						case (expired || msgExpired(tp, m, x)) && n > 0:
 							viol("not-discarded", fmt.Sprintf("topic %d was idle for %v (expiry %v, sweep %v) and %d sends in distinct sweep periods happened after its expiry, but its buffered message %s was still released when the topic started", op.Topic, x-tp.lastUsed, expire, sweep, len(sendTimes), m.id))
 						case alive && m.verdict == "must" && n == 0:
 							viol("throttled", fmt.Sprintf("message %s of sender %d arrived while the sender was within the limits (max %d topics in flight) and its topic started %v after its last message (expiry %v), but it was not handed over; warnings: %s", m.id, m.sender, cfg.MaxTopics, x-tp.lastUsed, expire, lg.Summary("W")))
@@ -357,6 +418,7 @@ func runC15(t *testing.T, spec RunSpec) *RunResult {
 				tp.startedAt = x
 				tp.lastSentAt = x
 				tp.msgs = nil
+				tp.eras = nil
 			}
 		}
 		res.Actions = acts
